@@ -1500,16 +1500,8 @@ class _AssociationList(_AssociationSingleItem[_T], MutableSequence[_T]):
         if not isinstance(index, slice):
             self._set(self.col[index], cast("_T", value))
         else:
-            if index.stop is None:
-                stop = len(self)
-            elif index.stop < 0:
-                stop = len(self) + index.stop
-            else:
-                stop = index.stop
-            step = index.step or 1
-
-            start = index.start or 0
-            rng = list(range(index.start or 0, stop, step))
+            start, stop, step = index.indices(len(self))
+            rng = list(range(start, stop, step))
 
             sized_value = list(value)
 
@@ -1527,7 +1519,7 @@ class _AssociationList(_AssociationSingleItem[_T], MutableSequence[_T]):
                         "extended slice of size %s"
                         % (len(sized_value), len(rng))
                     )
-                for i, item in zip(rng, value):
+                for i, item in zip(rng, sized_value):
                     self._set(self.col[i], item)
 
     @overload
@@ -1571,7 +1563,7 @@ class _AssociationList(_AssociationSingleItem[_T], MutableSequence[_T]):
         return count
 
     def extend(self, values: Iterable[_T]) -> None:
-        for v in values:
+        for v in list(values):
             self.append(v)
 
     def insert(self, index: int, value: _T) -> None:
@@ -1784,7 +1776,9 @@ class _AssociationDict(_AssociationCollection[_VT], MutableMapping[_KT, _VT]):
     ) -> Union[_VT, _T]: ...
 
     def pop(self, __key: _KT, /, *arg: Any, **kw: Any) -> Union[_VT, _T]:
-        member = self.col.pop(__key, *arg, **kw)
+        if __key not in self.col and (arg or kw):
+            return arg[0] if arg else kw["default"]
+        member = self.col.pop(__key)
         return self._get(member)
 
     def popitem(self) -> Tuple[_KT, _VT]:
@@ -1957,13 +1951,13 @@ class _AssociationSet(_AssociationSingleItem[_T], MutableSet[_T]):
 
     def difference_update(self, *s: Iterable[Any]) -> None:
         for other in s:
-            for value in other:
+            for value in list(other):
                 self.discard(value)
 
     def __isub__(self, s: AbstractSet[Any]) -> Self:
         if not collections._set_binops_check_strict(self, s):
             return NotImplemented
-        for value in s:
+        for value in list(s):
             self.discard(value)
         return self
 
